@@ -76,6 +76,10 @@ def main():
         try: rec["confirmed"] = json.load(open(prev)).get("confirmed", "skipped") if "ran" in json.load(open(prev)) else "skipped"
         except Exception: rec["confirmed"] = "skipped"
     rec["checks"] = {}
+    if skip:
+        # a re-run against strengthened checks: keep what the other checks reported earlier
+        try: rec["checks"] = dict(json.load(open(os.path.join(dst, "meta.json"))).get("checks", {}))
+        except Exception: pass
     for c in checks:
         t = time.time()
         rc, out = sh("./check %s" % c, cwd=ROOT, env={"VERIF_REPO": wt}, timeout=3000)
